@@ -16,7 +16,7 @@ PROPERTY = {
         'documents are parsed through Builder.add_source (source-level safety True), as Config.build does',
         'observational equality = for every node: kind, value, effective priority/delete/allow_new/safe, the explicit remove-this-key marker on empty nodes, the flags a container hands to children attached later, user metadata; plus equal results of probe merges in which the document is substituted',
     ],
-    'bounds': {'shapes': '10 two-site shapes (one holding quoted strings that look like f-strings, numbers, null, booleans, tags) (mapping/list/scalar/null/value-less/empty container/function node below mapping/list/function node) + 18 node kinds of the tag vocabulary (incl. function nodes with out-of-order integer keys, list-form and mixed arguments) below a flagged mapping',
+    'bounds': {'shapes': '13 two-site shapes (three with tagged scalars that need quoting/escaping or are special floats) (one holding quoted strings that look like f-strings, numbers, null, booleans, tags) (mapping/list/scalar/null/value-less/empty container/function node below mapping/list/function node) + 25 node kinds of the tag vocabulary (incl. function nodes with out-of-order integer keys, list-form and mixed arguments) below a flagged mapping',
                'flags per site': 'one of the pairs (priority, delete), (allow_new, safe), (delete, allow_new), (priority, safe), each flag absent or any value - symbolic', 'user metadata': 'present on the inner site (symbolic presence)'},
     'outside': ['explicit safe=True below an unsafe ancestor (no !safe tag exists in the loader)', 'documents evaluated from unsafe sources', 'anchors/aliases, comments, styles'],
     'per_split_timeout': {'quick': 600, 'thorough': 1800},
@@ -35,12 +35,18 @@ SHAPES = [
     'a: %(A)s {b: {c: %(B)s [1]}, d: [2]}',
     # quoted strings whose text looks like something else must come back as the same strings
     'a: %(A)s [%(B)s "f\'{c}\'", "123", "null", "~", "true", "!xref a", "1e3", " padded "]',
+    # tagged scalars whose text needs care when written: line breaks, backslashes, both quote characters, special floats
+    'a: %(A)s {b: %(B)s "x\\ny\\n", c: %(B)s "b\\\\s\\t."}',
+    'a: %(A)s {b: %(B)s "it\'s \\"q\\"", c: %(B)s "\\u00e9 # : x"}',
+    'a: %(A)s {b: %(B)s .inf, c: %(B)s 1.0e+16, d: %(B)s -0.5}',
 ]
 KINDS = [
     "!xref a.c", "!eval 'a'", "f'{a}'", "!import math.pi", "!path [x]", "!path:parent(1) [x]", "!required ", "!clear ",
     "!append [1]", "!extend [2]", "!prev a.c", "!call:engine.targets.f {x: 1}", "!bind:engine.targets.g {y: [1]}", "!call engine.targets.f",
     # positional arguments: out-of-order integer keys, list form, mixed positional / keyword
     "!call:engine.targets.pos2 {1: t, 0: h}", "!bind:engine.targets.pos3 {2: z, 0: x, 1: y}", "!call:engine.targets.f [p, q]", "!call:engine.targets.mixed {1: 1, k: 2, 0: 0}",
+    # user metadata written with the {{..}} syntax on dynamic / structural kinds, lazily included files
+    "!path{{'note': 1}} [x]", "!path:{{'note': 1}} [x]", "!path:cwd{{'note': 1}} x", "!xref{{'note': 1}} a.c", "!call:engine.targets.f{{'note': 1}} {x: 1}", "!rec x.yaml", "!rec [x.yaml, y.yaml]",
 ]
 PAIRS = {'pd': ('priority', 'delete'), 'ns': ('allow_new', 'safe'), 'dn': ('delete', 'allow_new'), 'ps': ('priority', 'safe')}
 
@@ -140,6 +146,12 @@ def c18_roundtrip(split, pa1, va1, pa2, va2, pva, pb1, vb1, pb2, vb2, pvb, mdb):
     note(text=text)
     try:
         orig = _parse(text)
+    except Exception as e:
+        reraise_internal(e)
+        note(unparsed=repr(e)[:200])
+        wit('unparsed')
+        return True          # not a parsed document: nothing to round-trip
+    try:
         d0 = describe(orig)
         out1 = ayy.dump(orig)
         back = _parse(out1)
@@ -178,7 +190,8 @@ def _splits(tier):
     pairs = ['pd', 'ns', 'dn', 'ps']
     if tier == 'quick':
         combos = {0: [('pd', 'pd')], 1: [('ns', 'dn')], 2: [('dn', 'pd')], 3: [('pd', 'ps')],
-                  4: [('pd', 'pd')], 6: [('dn', 'dn')], 8: [('dn', 'ns')], 9: [('pd', 'ns')]}
+                  4: [('pd', 'pd')], 6: [('dn', 'dn')], 8: [('dn', 'ns')], 9: [('pd', 'ns')],
+                  10: [('pd', 'pd')], 11: [('ns', 'dn')], 12: [('pd', 'ps')]}
         for sh, cs in combos.items():
             for pa, pb in cs:
                 for bits in range(8):
